@@ -28,7 +28,7 @@ func c04Sizes(tier string) (units, per int) {
 	if tier == "thorough" {
 		return 3000, 40
 	}
-	return 160, 16
+	return 400, 40
 }
 
 func c04Run(c *mon.Ctx, unit int) {
